@@ -27,6 +27,16 @@ pub struct Case {
     /// ACK for 2xx re-uses the INVITE's branch (some stacks do)
     pub ack_same_branch: bool,
     pub rng: u8,
+    /// transient transport faults: the i-th *re-send* of the final response (0-based, in the order the
+    /// transaction attempts them) fails with an io::Error. Applied to non-INVITE transactions on unreliable
+    /// transports only (an INVITE transaction reports a failed re-send to the caller of `respond_failure`,
+    /// which the statement does not speak about), and only when no request copy is queued before the answer.
+    #[serde(default)]
+    pub faults: Vec<u8>,
+}
+
+fn faults_apply(case: &Case) -> bool {
+    !case.invite && !case.reliable && !case.faults.is_empty() && case.retrans.iter().all(|t| *t > case.respond_at)
 }
 
 /// Layer that records and hands every request to the test task
@@ -90,9 +100,12 @@ pub fn strategy() -> BoxedStrategy<Case> {
         prop::option::of((any::<u16>(), 0u64..40_000, any::<bool>())),
         any::<bool>(),
         any::<u8>(),
+        prop_oneof![3 => Just(vec![]), 2 => prop::collection::vec(0u8..5, 1..3)],
     )
         .prop_map(
-            |(invite, reliable, csel, provisionals, respond_at, retr, ack, ack_same_branch, rng)| {
+            |(invite, reliable, csel, provisionals, respond_at, retr, ack, ack_same_branch, rng, mut faults)| {
+                faults.sort();
+                faults.dedup();
                 let grid = time_grid(respond_at);
                 let pick = |sel: u16, rnd: u64, use_rnd: bool| {
                     nudge(
@@ -133,6 +146,7 @@ pub fn strategy() -> BoxedStrategy<Case> {
                     ack_at,
                     ack_same_branch,
                     rng,
+                    faults,
                 }
             },
         )
@@ -197,8 +211,32 @@ pub fn grid_cases(tier: Tier) -> Vec<Case> {
                                 ack_at: a,
                                 ack_same_branch: false,
                                 rng: 0,
+                                faults: vec![],
                             });
                         }
+                    }
+                }
+            }
+        }
+    }
+    // transient transport faults on re-sends of a non-INVITE final response
+    for &code in &[200u16, 404] {
+        for respond_at in [0u64, 100] {
+            for provisionals in 0u8..2 {
+                for faults in [vec![0u8], vec![1], vec![0, 1], vec![2], vec![0, 2]] {
+                    for gap in [100u64, 7000] {
+                        out.push(Case {
+                            invite: false,
+                            reliable: false,
+                            code,
+                            provisionals,
+                            respond_at,
+                            retrans: (1..=4).map(|i| nudge(respond_at, respond_at + i * gap)).collect(),
+                            ack_at: None,
+                            ack_same_branch: false,
+                            rng: 0,
+                            faults: faults.clone(),
+                        });
                     }
                 }
             }
@@ -222,6 +260,7 @@ pub struct Observed {
     pub seen: Vec<Seen>,
     pub app: Vec<AppResult>,
     pub end_count: usize,
+    pub failed_sends: usize,
 }
 
 const BRANCH: &str = "z9hG4bKc06branch";
@@ -275,6 +314,10 @@ pub fn run(case: &Case) -> Observed {
         let peer: SocketAddr = "192.0.2.9:5060".parse().unwrap();
         let app: Arc<Mutex<Vec<AppResult>>> = Default::default();
 
+        if faults_apply(&case) {
+            // send calls so far: the provisionals and the final response itself
+            log.fail_calls(case.faults.iter().map(|i| case.provisionals as usize + 1 + *i as usize));
+        }
         let req_bytes = request_bytes(case.invite);
         inject(&endpoint, &tp, peer, &req_bytes);
         settle().await;
@@ -389,6 +432,7 @@ pub fn run(case: &Case) -> Observed {
             seen: rec.snapshot(),
             app: app_out,
             end_count,
+            failed_sends: log.failed_sends().len(),
         }
     })
 }
@@ -460,6 +504,29 @@ pub fn check(case: &Case, out: &mut CaseOut) {
         // INVITE 2xx: retransmission is the TU's job (Accepted), none by the transaction
     }
     want.sort();
+    if faults_apply(case) {
+        // the re-sends hit by a transient transport fault never reach the wire; every other one still must
+        let mut i = 0usize;
+        let mut kept = vec![];
+        for (k, t) in want.iter().enumerate() {
+            if k == 0 {
+                kept.push(*t);
+                continue;
+            }
+            if !case.faults.contains(&(i as u8)) {
+                kept.push(*t);
+            }
+            i += 1;
+        }
+        let hit = want.len() - kept.len();
+        want = kept;
+        if obs.failed_sends != hit {
+            out.fail("c06.harness/fault-plan-mismatch", format!("{} sends failed, plan expected {hit}", obs.failed_sends));
+        }
+        if hit > 0 {
+            out.class("re-send hit by a transient transport fault");
+        }
+    }
     // retransmissions that arrived before the final response may (queued in the transaction) trigger
     // extra copies at the instant of the final: tolerated, 0..=queued_before extra at `ra`
     let mut got = final_times.clone();
@@ -609,7 +676,7 @@ pub fn check(case: &Case, out: &mut CaseOut) {
     }
 
     // non-triviality
-    let timer_retrans = want.len() > 1;
+    let timer_retrans = want.len() > 1 || obs.failed_sends > 0;
     let ack_near_edge = case.ack_at.map_or(false, |a| g_instants(ra).iter().any(|e| a.abs_diff(*e) <= 1));
     if !case.retrans.is_empty() {
         out.class("request-retransmission");
@@ -633,9 +700,9 @@ pub fn property() -> Property {
     Property {
         fuzz: vec![],
         id: "C06",
-        rule: "cases = (INVITE|non-INVITE) x (reliable|unreliable) x final status x 0..2 provisionals x answer delay x arrival instants of request retransmissions and of the ACK (grid = +-1 ms around every timer-G instant, the answer instant and 64*T1; random otherwise) under a paused clock. Non-trivial = at least one request retransmission, or at least one timer retransmission expected, or an ACK within 1 ms of a G/H edge; distinct by hash of the case.",
+        rule: "cases = (INVITE|non-INVITE) x (reliable|unreliable) x final status x 0..2 provisionals x answer delay x arrival instants of request retransmissions and of the ACK (grid = +-1 ms around every timer-G instant, the answer instant and 64*T1; random otherwise) x transient send faults on chosen re-sends of a non-INVITE final response, under a paused clock. Non-trivial = at least one request retransmission, or at least one timer retransmission expected, or an ACK within 1 ms of a G/H edge; distinct by hash of the case.",
         assumptions: vec![
-            "timers run on tokio's paused clock (hook H2); mock transport sends complete instantly",
+            "timers run on tokio's paused clock (hook H2); mock transport sends complete instantly; transient send faults are injected only into re-sends of a non-INVITE final response",
             "arrivals exactly on a timer instant are excluded (tie is a don't-care)",
             "request retransmissions that arrive before the final response may produce extra copies at the answer instant (tolerated: statement silent)",
             "no request retransmissions are generated after the final response on reliable transports",
